@@ -316,6 +316,11 @@ func hookRangePick(site int, keys []uint64) int {
 		}
 		return alts[i].h < alts[j].h
 	})
+	if e.plan.Flags.HashDep && (site == 3 || site == 4) {
+		// lockedMap.Clear / IterValues enumerate one shard: which keys share a
+		// shard depends on per-process hash values, so no decision is drawn here
+		return alts[0].idx
+	}
 	return alts[e.dec.Choose(len(alts), core.LRange)].idx
 }
 
@@ -937,6 +942,9 @@ func raceYieldFilter(site int, key uint64) bool {
 	e := E
 	switch site {
 	case ristrettoSiteIterShard, ristrettoSiteClearShard:
+		if e.plan.Flags.HashDep {
+			return false
+		}
 		return e.shardPark[key%256]
 	}
 	return true
